@@ -206,7 +206,11 @@ EvCtlSynced ==
       cand == {j \in DOMAIN net.lists : j > net.consumed /\ net.lists[j].fail = "" /\ ToString(net.lists[j].rv) = X(1)
                                         /\ KnownList(X(2)) /\ ItemsOf(net.lists[j].list) = ItemsOf(X(2)) /\ Len(net.lists[j].list) = Len(X(2))} IN
   /\ Report(First(<<IF evs # caches[c.cache].ev THEN "ctl-events-differ" ELSE "",
-                    IF net.lists # <<>> /\ cand = {} THEN "synced-list-not-from-server" ELSE "">>),
+                    IF net.lists # <<>> /\ cand = {} THEN "synced-list-not-from-server" ELSE "",
+                    \* results are handed over one at a time and in order: a good result the server returned earlier
+                    \* and that was never synced has been abandoned (C03: each completed list is applied)
+                    IF cand # {} /\ \E j \in DOMAIN net.lists : j > net.consumed /\ net.lists[j].fail = "" /\ \A m \in cand : j < m
+                       THEN "list-not-applied" ELSE "">>),
             [ctl |-> A, events |-> evs, cache_events |-> caches[c.cache].ev, version |-> X(1), list |-> X(2), server_lists |-> net.lists, consumed |-> net.consumed])
   /\ ctls' = [ctls EXCEPT ![A].nsync = @ + 1, ![A].lp = FALSE]
   /\ stages' = IF X(4) THEN [stages EXCEPT ![c.sub].inq = @ \o evs] ELSE stages
@@ -437,6 +441,8 @@ EvQuiesce ==
              \cup {<<"stuck", s, ToString(Head(BoxR(s)))>> : s \in stuck} \cup {<<"wstuck", w, "">> : w \in wstuck}
              \cup {<<"alive", s, "">> : s \in alive} \cup {<<"uninit", m, "">> : m \in uninit}
              \cup {<<"unapplied", c, "">> : c \in {x \in DOMAIN ctls : ~ctls[x].stopping /\ ctls[x].lp}}
+             \cup {<<"unapplied", "list", ToString(j)>> : j \in {x \in DOMAIN net.lists : x > net.consumed /\ net.lists[x].fail = "" /\ ~pend.closedAll
+                                                                                        /\ \E c \in DOMAIN ctls : ~ctls[c].stopping}}
       still == now \cap pend.suspects
       Kind(k) == \E x \in still : x[1] = k IN
   /\ Report(IF ~R.ok THEN "not-quiescent"
